@@ -144,6 +144,10 @@ def classify(spec, kind: str, rec) -> str:
         parsed = urllib.parse.parse_qsl(rec.raw_query, keep_blank_values=True)
         if urllib.parse.urlencode(parsed) != rec.raw_query:
             return "signed_query_reencoded_by_transport"
+    # known mechanism: a sequence-valued keyword argument is transmitted as repeated form fields but signed as the
+    # repr() of the sequence
+    if kind == "signature_mismatch" and any(isinstance(v, (list, tuple)) for v in spec["args"].get("kwargs", {}).values()):
+        return "sequence_argument_signed_as_repr"
     return ""
 
 
@@ -190,7 +194,13 @@ async def run_cases(specs: List[Dict[str, Any]], res: ShardResult, prop: str = "
                 continue
             if idx % 97 == 5:
                 await concurrent_burst(s, res, nonces, 2 + idx % 7)
+            if idx % 41 == 7:
+                s.srv.drop_next = 1       # the peer receives this request and drops the connection without replying
             exp, recs, t0, t1, err = await s.call(spec)
+            if s.srv.drop_next:
+                s.srv.drop_next = 0       # the call never reached the server (validation error): nothing to drop
+            elif idx % 41 == 7:
+                res.count("requests_dropped_by_peer")
             res.evaluations += 1
             res.count("requests_received", len(recs))
             if exp is None:
@@ -199,9 +209,13 @@ async def run_cases(specs: List[Dict[str, Any]], res: ShardResult, prop: str = "
             res.count("auth_" + exp.auth)
             if err is not None:
                 res.count("calls_raised")
-            for kind, msg in check_auth(spec, exp, recs, t0, t1, err, nonces, key, secret):
-                res.violate(Violation("C16", kind, f"{spec['client']} {spec['name']} ({spec['args'].get('acct', '')}): {msg}",
-                                      scenario=spec, mechanism=classify(spec, kind, recs[-1] if recs else None)))
+            # every request the peer received for this call is judged (a call may be transmitted more than once)
+            for one_rec in ([[r_] for r_ in recs] or [[]]):
+                for kind, msg in check_auth(spec, exp, one_rec, t0, t1, err, nonces, key, secret):
+                    res.violate(Violation("C16", kind, f"{spec['client']} {spec['name']} ({spec['args'].get('acct', '')}): {msg}",
+                                          scenario=spec, mechanism=classify(spec, kind, one_rec[-1] if one_rec else None)))
+            if len(recs) > 1:
+                res.count("calls_transmitted_more_than_once")
             res.count("signatures_verified", 1 if exp.auth in ("sig", "bitstamp") else 0)
             cid = spec["args"].get("cid") or ""
             decs = [spec["args"].get(k) for k in ("amount", "price", "stop") if spec["args"].get(k)]
@@ -214,6 +228,21 @@ async def run_cases(specs: List[Dict[str, Any]], res: ShardResult, prop: str = "
                 rec = recs[-1]
                 res.sample({"call": f"{spec['client']}.{spec['name']}", "client_order_id": cid,
                             "received": f"{rec.method} {rec.raw_path[:160]}", "body": rec.body.decode('utf-8', 'replace')[:160]})
+
+
+async def run_cases_dual(specs: List[Dict[str, Any]], res: ShardResult, a: tuple, b: tuple, nonces: set) -> None:
+    async with Session(*a) as sa, Session(*b) as sb:
+        for idx, spec in enumerate(specs):
+            s = sa if idx % 2 == 0 else sb
+            exp, recs, t0, t1, err = await s.call(spec)
+            res.evaluations += 1
+            if exp is None:
+                continue
+            res.count("dual_account_requests", len(recs))
+            for rec in recs:
+                for kind, msg in check_auth(spec, exp, [rec], t0, t1, err, nonces, s.key, s.secret):
+                    res.violate(Violation("C16", kind, f"two accounts side by side, {spec['client']} {spec['name']} sent by "
+                                                       f"account {s.key[:8]}...: {msg}", scenario=dict(spec, dual=True)))
 
 
 # ---------------------------------------------------------------------------------------------
@@ -380,6 +409,9 @@ def run_shard(ctx: Context, res: ShardResult) -> None:
         n2 = max(40, len(specs) // 8)
         asyncio.run(run_cases(specs[:n2], res, key=calls.KEY, secret=calls.SECRET[::-1] + "-rotated", nonces=nonces))
         asyncio.run(run_cases(specs[n2:n2 + n2 // 2], res, key="another-" + calls.KEY, secret=calls.SECRET, nonces=nonces))
+        # two accounts (main and sub-account) used side by side in one process: every request carries the key and the
+        # signature of the client that sent it
+        asyncio.run(run_cases_dual(specs[:n2], res, (calls.KEY, calls.SECRET), ("sub-" + calls.KEY, "sub-" + calls.SECRET), nonces))
         for k in range(max(10, ctx.cases // 100)):
             run_throttled_case(gen_throttled(ctx.rng("c16thr", ctx.shard, k)), res)
         for k in range(max(10, ctx.cases // 100)):
@@ -395,6 +427,9 @@ def replay(prop: str, scenario: Dict[str, Any], res: ShardResult) -> None:
         run_throttled_case(scenario["throttled"], res)
     elif "clock_step" in scenario:
         run_clock_step_case(scenario["clock_step"], res)
+    elif scenario.get("dual"):
+        sc2 = {k: v for k, v in scenario.items() if k != "dual"}
+        asyncio.run(run_cases_dual([sc2, sc2, sc2], res, (calls.KEY, calls.SECRET), ("sub-" + calls.KEY, "sub-" + calls.SECRET), set()))
     else:
         asyncio.run(run_cases([scenario], res))
 
@@ -404,7 +439,7 @@ def finalize(prop: str, tier: str, merged: ShardResult) -> Dict[str, Any]:
     c = merged.counters
     for k, n in (("signatures_verified", 500), ("auth_sig", 200), ("auth_bitstamp", 100), ("auth_key", 10),
                  ("throttled_requests", 100), ("concurrent_requests", 50),
-                 ("requests_after_clock_step", 50)):
+                 ("requests_after_clock_step", 50), ("dual_account_requests", 50), ("requests_dropped_by_peer", 10)):
         if c.get(k, 0) < n:
             inc.append(f"'{k}' observed only {c.get(k, 0)} times (< {n})")
     return {"inconclusive": inc}
